@@ -588,3 +588,41 @@ impl RepoHandle {
         Repository::new(&Self::default_opts(), &self.backends_oc())?.open(&Credentials::Masterkey(self.key.clone()))
     }
 }
+
+impl RepoHandle {
+    /// Repository options without the local cache (every cached repository leaves a directory under
+    /// ~/.cache/rustic; repositories sharing a repository id would even share it).
+    pub fn opts_nc() -> RepositoryOptions {
+        RepositoryOptions::default().no_cache(true)
+    }
+    /// `open` without local cache.
+    pub fn open_nc(&self) -> RusticResult<Repository<OpenStatus>> {
+        self.open_with(&Self::opts_nc())
+    }
+    /// `init` without local cache.
+    pub fn init_nc(be: MemBackend, hot: Option<MemBackend>, cfg: &ConfigOptions) -> RusticResult<(Self, Repository<OpenStatus>)> {
+        let key = MasterKey::new();
+        let h = Self { be, hot, key };
+        let repo = Repository::new(&Self::opts_nc(), &h.backends())?;
+        let repo = repo.init(&Credentials::Masterkey(h.key.clone()), &KeyOptions::default(), cfg)?;
+        Ok((h, repo))
+    }
+}
+
+/// Like `check_errors`, but returns the variant names of the findings of level Error (sorted).
+pub fn check_error_kinds(h: &RepoHandle, read_data: bool) -> Option<Vec<String>> {
+    let repo = h.open_nc().ok()?;
+    let opts = CheckOptions::default().read_data(read_data);
+    let res = repo.check(opts).ok()?;
+    let mut v: Vec<String> = res
+        .0
+        .iter()
+        .filter(|(l, _)| format!("{l:?}") == "Error")
+        .map(|(_, e)| {
+            let d = format!("{e:?}");
+            d.split(|c: char| !c.is_alphanumeric()).next().unwrap_or("?").to_string()
+        })
+        .collect();
+    v.sort();
+    Some(v)
+}
